@@ -47,10 +47,10 @@ type keyT struct {
 }
 
 var (
-	ifaces = []string{"", "eth0", "eth1"}
-	hosts  = []string{"", "hostA", "hostB"}
-	hids   = []string{"", "1", "2"}
-	addrs  = []netip.Addr{{}, netip.MustParseAddr("10.0.0.1"), netip.MustParseAddr("10.0.0.2"), netip.MustParseAddr("2001:db8::1"), netip.MustParseAddr("0.0.0.0"), netip.MustParseAddr("::")}
+	ifaces      = []string{"", "eth0", "eth1"}
+	hosts       = []string{"", "hostA", "hostB"}
+	hids        = []string{"", "1", "2"}
+	addrs       = []netip.Addr{{}, netip.MustParseAddr("10.0.0.1"), netip.MustParseAddr("10.0.0.2"), netip.MustParseAddr("2001:db8::1"), netip.MustParseAddr("0.0.0.0"), netip.MustParseAddr("::")}
 	sharedFixed = time.FixedZone("", 2*3600)
 )
 
@@ -85,12 +85,6 @@ func inLoc(t *rapid.T, ts int64, label string) (time.Time, string) {
 	default:
 		return time.Unix(ts, 0).In(time.FixedZone("", -5*3600)), "fresh"
 	}
-}
-
-type caseT struct {
-	bin     int64 // seconds
-	rows    results.Rows
-	classes []string
 }
 
 // genRows draws rows whose timestamps probe the bin boundaries of bin (seconds).
